@@ -37,3 +37,50 @@ class Num(enum.IntEnum):
     TWELVE = 12
     THIRTEEN = 13
     ZERO = 0
+
+
+class SE(str, enum.Enum):
+    """Members are strings whose str(), format() and repr() are NOT their text (Python 3.12: str(SE.MAR) == 'SE.MAR'):
+    code that needs the text must use the value as the str it is, not convert it."""
+
+    MAR = "Mar"
+    JAN = "jan"
+    THREE = "3"
+    TITLE = "title"
+    AUTHORS = "Ada Lovelace and Alan Turing"
+    YEAR = "year"
+
+
+class WithIndex:
+    """Not an int, not a str - but usable as an index (operator.index) and convertible (int())."""
+
+    def __init__(self, n, fail=False):
+        self.n, self.fail = n, fail
+
+    def __index__(self):
+        if self.fail:
+            raise ValueError("no index today")
+        return self.n
+
+    __int__ = __index__
+
+    def __eq__(self, other):
+        return isinstance(other, WithIndex) and (self.n, self.fail) == (other.n, other.fail)
+
+    def __hash__(self):
+        return hash((self.n, self.fail))
+
+    def __repr__(self):
+        return f"WithIndex({self.n}, fail={self.fail})"
+
+
+class Anything:
+    """Compares equal to everything (a test wildcard like unittest.mock.ANY)."""
+
+    def __eq__(self, other):
+        return True
+
+    def __ne__(self, other):
+        return False
+
+    __hash__ = None
